@@ -289,6 +289,35 @@ func usedVNames(engDirs []string) map[string]map[string]bool {
 	return out
 }
 
+// packageImports: local name -> import spec of every import of the package's non-test files.
+func packageImports(dir string) map[string]string {
+	out := map[string]string{}
+	fset := token.NewFileSet()
+	files, _ := filepath.Glob(filepath.Join(dir, "*.go"))
+	for _, fn := range files {
+		if strings.HasSuffix(fn, "_test.go") || strings.HasPrefix(filepath.Base(fn), "zz_verif_") {
+			continue
+		}
+		f, err := parser.ParseFile(fset, fn, nil, parser.ImportsOnly)
+		if err != nil {
+			continue
+		}
+		for _, im := range f.Imports {
+			path := strings.Trim(im.Path.Value, `"`)
+			name := path[strings.LastIndex(path, "/")+1:]
+			spec := im.Path.Value
+			if im.Name != nil {
+				name = im.Name.Name
+				spec = im.Name.Name + " " + im.Path.Value
+			}
+			if name != "_" && name != "." {
+				out[name] = spec
+			}
+		}
+	}
+	return out
+}
+
 // harnessDirs: the directories of this module reachable from the given main package through imports.
 func harnessDirs(start string) []string {
 	seen := map[string]bool{}
@@ -436,8 +465,18 @@ func main() {
 				}
 			}
 		}
+		// imports the generated forwarders need (`io.Reader` in a signature): taken from the package's own files
+		pkgImports := packageImports(filepath.Join(*repo, rel))
 		for _, a := range aliases {
 			body.WriteString(a + "\n\n")
+			for name, spec := range pkgImports {
+				if regexp.MustCompile(`\b` + regexp.QuoteMeta(name) + `\.[A-Za-z]`).MatchString(a) {
+					if _, have := sp.imports[name]; !have {
+						sp.imports[name] = spec
+					}
+					usedImports[name] = true
+				}
+			}
 		}
 		var hdr strings.Builder
 		hdr.WriteString("//go:build verif\n\n// Code generated by harness/cmd/mkshims from harness/shims for engine " + *engine + "; DO NOT EDIT.\n\npackage " + sp.pkgName + "\n\n")
